@@ -9,6 +9,7 @@
 package wire
 
 import (
+	"bytes"
 	"errors"
 	"fmt"
 	"io"
@@ -567,15 +568,26 @@ func (c *Conn) String() string { return fmt.Sprintf("wire(%s)", c.Name) }
 // gets a private copy of p (with spare capacity behind it), and as soon as
 // Write has returned the whole backing array is overwritten. A caller owns its
 // buffer again once Write returns (io.Writer: "implementations must not retain
-// p"), so whatever the code under test still has to send must not live in it;
-// nothing is demanded about what Write did to the buffer meanwhile.
+// p"), so whatever the code under test still has to send must not live in it.
+// The bytes the application wrote are the bytes in its buffer: a Write that
+// returns with the buffer's contents changed (io.Writer: "must not modify the
+// slice data, even temporarily") has altered what the application goes on to
+// use -- write again, compare, log -- and is reported as ErrCallerBufferModified
+// (every harness treats a Write error on a healthy connection as a failure).
 func WriteOwned(w io.Writer, p []byte) (int, error) {
 	q := make([]byte, len(p), len(p)+96)
 	copy(q, p)
 	n, err := w.Write(q)
+	same := bytes.Equal(q, p)
 	q = q[:cap(q)]
 	for i := range q {
 		q[i] = 0xEE
 	}
+	if err == nil && !same {
+		return n, ErrCallerBufferModified
+	}
 	return n, err
 }
+
+// ErrCallerBufferModified: see WriteOwned.
+var ErrCallerBufferModified = errors.New("Write returned with the contents of the caller's buffer changed (the application's data is no longer what it wrote)")
